@@ -77,7 +77,22 @@ func (e *Explorer) dfs(path []string) {
 	}
 	var res *NodeResult
 	var err error
-	if owned {
+	if owned && os.Getenv("VERIF_CRASHDB_COUNT") != "" {
+		// sizing aid: count the histories of the bounded space without recovering anything
+		saved := e.R.NoImages
+		e.R.NoImages = true
+		res, err = e.R.RunNode(path)
+		e.R.NoImages = saved
+		if err != nil {
+			vr.Fatalf("%s: path %v: %v", s.Name, path, err)
+		}
+		if res.Valid {
+			e.P.Add("histories", 1)
+			e.P.Add("histories:"+s.Name, 1)
+			e.P.Add("crash_points", int64(res.Points))
+			e.P.Mark("outcomes", fmt.Sprint(len(path)))
+		}
+	} else if owned {
 		res = e.exploreNode(path)
 	} else {
 		saved := e.R.NoImages
@@ -226,6 +241,11 @@ func (e *Explorer) judge(path []string, res *NodeResult, count bool) []viol {
 		where := fmt.Sprintf("config=%s history=[%s] crash at %s (acked=%d accepted=%d); image: %s", s.Name, pathStr(path), c.Desc, c.Acked, c.Accepted, c.Img.Describe())
 		add := func(kind, desc string, post []string) {
 			sig := fmt.Sprintf("%s op=%s at=%s mode=%s sync=%v", kind, lastOp, c.Class, s.Mode, sync)
+			if rec.H != nil && rec.H.DB != nil && (strings.HasPrefix(kind, "ack") || kind == "not-a-prefix" || kind == "partial-batch") {
+				// where the recovered LSM holds copies of each key: separates "data is there but
+				// not read" from "data is gone" (distinct mechanisms get distinct signatures)
+				sig += " copies=" + s.Locate(rec.H)
+			}
 			out = append(out, viol{sig, desc + "\n  " + where, Replay{Config: s.Name, Path: path, Class: c.Class, Post: post}})
 		}
 		if rec.OpenErr != "" {
@@ -323,9 +343,10 @@ func (pi *postInst) Apply(op string) (bool, error) {
 		if err != nil {
 			return false, err
 		}
-		old := pi.rec
+		// one DB per process at a time (process-global hook handlers): the abandoned
+		// instance is shut down before the image is reopened; the image is already taken
+		pi.rec.Close()
 		nrec := pi.e.R.Recover(img)
-		old.Close()
 		pi.rec = nrec
 		if nrec.OpenErr != "" {
 			pi.sig, pi.desc = "post-reopen-failed:"+Classify(nrec.OpenErr), "reopen after a second crash failed: "+nrec.OpenErr
